@@ -216,7 +216,7 @@ func runCheck(env *Env, id, tier string, spec *CheckSpec, doReplay bool) int {
 			cfgs = js.CfgsThorough
 		}
 		for _, c := range cfgs {
-			jobs = append(jobs, &Job{Entry: js.Entry, Cfg: c, Tier: tierN})
+			jobs = append(jobs, &Job{Entry: js.Entry, Cfg: c, Tier: tierN, Prop: id})
 		}
 	}
 	rr := runJobs(env, ld, jobs, specByEntry)
